@@ -117,6 +117,24 @@ def run(check: Check) -> None:
                 if v not in ("agree", "dontcare"):
                     check.violation(f"{v}::{' '.join(syms)}", f"{v}: formula {' '.join(syms)!r} (include_intercept={ii}): {d}",
                                     {"kind": "ch_native", "module": "ch_c01", "function": "sides", "call": {"args": [i, j, ii], "kwargs": {}}})
+    # deep streams (nesting <= 4, up to 25 symbols) generated from the grammar, each with one single-symbol mutation: the same
+    # comparison with the reference reading, natively (ground companion; the symbolic streams stop at K = 3 / 5)
+    deep = pc.random_streams(check.seed * 7 + 3, 20000 if thorough else 1500)
+    configs = [(True, ("TWOSIDED", "MULTIPART")), (False, ("TWOSIDED", "MULTIPART")), (True, ("TWOSIDED",)), (True, ())]
+    nd = ndc = 0
+    deep_bad = []
+    for k, syms in enumerate(deep):
+        ii, fl = configs[0] if k % 3 else configs[(k // 3) % len(configs)]
+        v, d = pc.compare(syms, include_intercept=ii, flags=fl, available=pc.AVAILABLE, tie_order=False)
+        nd += 1
+        ndc += v == "dontcare"
+        if v not in ("agree", "dontcare"):
+            deep_bad.append((syms, ii, fl, v, d))
+    check.obligation("streams.deep/ground", "ground", nd - len(deep_bad))
+    check.info["deep_streams"] = {"generated": nd, "dontcare": ndc}
+    for syms, ii, fl, v, d in deep_bad[:10]:
+        check.violation(f"{v}::{' '.join(syms)}", f"{v}: formula {' '.join(syms)!r} (include_intercept={ii}, flags={list(fl)}): {d}",
+                        {"kind": "c01_stream", "symbols": syms, "ii": ii, "flags": list(fl)})
     check.obligation("streams/native cross-validation (K<=3)", "ground", nn - len(bad))
     for syms, v, d in bad[:20]:
         key = f"{v}::{' '.join(pc.SIGMA[i] for i in syms)}"
